@@ -21,10 +21,16 @@ Open Scope Z_scope.
    The executable definition of that class is the generator of harness/parser/gen.go; the
    correspondence run of the check compares implementation, model and denotation on it.
 
-   PROVED (below): the statement for the kinds VERSION, BS_ (all three forms), BU_ and unknown lines
-   (identifier / decimal number / punctuation tokens) in the plain layout (one definition per line,
-   single spaces, LF, every line terminated; strings over printable ASCII without quote and backslash;
-   unsigned integers < 2^64 without leading zeros; any count and order of definitions). *)
+   PROVED (below): the statement for the kinds VERSION, BS_ (all three forms), BU_, BO_ with its SG_
+   lines (plain / multiplexer switch M / multiplexed m<k> signals, both byte orders and signs, factor,
+   offset, minimum, maximum as optionally signed decimal integers converted by the correctly rounded
+   conversion, unit string, one or more receivers; message id valid standard / extended / pseudo id)
+   and unknown lines (identifier / decimal number / punctuation tokens), in the plain layout (one line
+   per definition or signal, single spaces, LF, every line terminated; strings over printable ASCII
+   without quote and backslash; unsigned integers < 2^64 without leading zeros; any count and order
+   of definitions). NOT covered by the proof: NS_, VAL_TABLE_, BO_TX_BU_, EV_, ENVVAR_DATA_, CM_,
+   BA_DEF_, BA_DEF_DEF_, BA_, VAL_, SIG_VALTYPE_, top-level SG_, fractional/exponent floats, escaped
+   quotes, UTF-8 and newlines in strings, the other layouts. *)
 
 (** parse (print ds) = Ok (elaborate ds): one definition per source definition, in order, every field
     equal to the source value, position = (line of the definition, column 1, byte offset of its line) *)
@@ -59,8 +65,10 @@ Theorem C04_bit_timing_refuted : forall il id,
 Proof. exact (fun il id => conj (f9_old il id) (f9_fixed il id)). Qed.
 
 (** non-vacuity: a source file with all covered kinds satisfies the hypothesis of the round trip
-    (VERSION "1.0" / BS_: 500 : 1 , 2 / BU_: ECU1 ECU2 / FOO_ x 12 ; / BS_: / VERSION "") ... *)
-Example C04_nonvacuous : Forall wf_sdef sample_ds /\ List.length sample_ds = 6%nat.
+    (VERSION "1.0" / BS_: 500 : 1 , 2 / BU_: ECU1 ECU2 / BO_ 2566844926 Msg : 8 ECU1 with two lines
+    SG_ Speed m3 : 7 | 16 @ 0 - ( 1 , -40 ) [ -40 | 6513 ] "km/h" ECU2 , ECU1 / FOO_ x 12 ; / BS_: /
+    VERSION "") ... *)
+Example C04_nonvacuous : Forall wf_sdef sample_ds /\ List.length sample_ds = 7%nat.
 Proof. exact (conj sample_ds_wf eq_refl). Qed.
 
 (** ... and the model parses a file of other kinds (BO_/SG_ with extended id, multiplexed big-endian
